@@ -93,7 +93,20 @@ def gen_history(rnd, pairs, hid):
                 st["fault"] = {"op": "open", "path": "/work/" + out, "nth": 1, "err": "EACCES"}
             elif f < 21:
                 st["fault"] = {"op": "read", "path": "/work/" + rnd.choice(["p%s.yaml", "d%s.jsonld"]) % which, "nth": 1, "err": "EIO"}
+            elif f < 33:
+                # the process dies at this operation (crash at an arbitrary point of the write path)
+                st["fault"] = rnd.choice([{"op": "write", "path": "*", "nth": 1, "err": "CRASH", "after": rnd.choice([0, 1, 200, 100000])},
+                                          {"op": "sync", "path": "*", "nth": 1, "err": "CRASH"}, {"op": "close", "path": "*", "nth": 1, "err": "CRASH"},
+                                          {"op": "rename", "path": "*", "nth": 1, "err": "CRASH"}, {"op": "open", "path": "/work/" + out, "nth": 1, "err": "CRASH"},
+                                          {"op": "stat", "path": "*", "nth": 1, "err": "CRASH"}])
+                st["restart"] = rnd.choice(["dirty", "clean"])
             steps.append(st)
+            if (st.get("fault") or i == 0) and rnd.randrange(100) < 60:
+                # follow a (possibly) failed write with a clean retry of the OTHER pair on the same path:
+                # whatever the failed attempt left behind must not leak into the next report
+                other = "2" if which == "1" else "1"
+                steps.append({"op": "env", "what": "out_state", "path": "/work/" + out, "state": rnd.choice(["absent", "empty", "short"]), "fill": "X", "extra": 1, "which": other})
+                steps.append({"op": "run", "argv": ["validate", "p%s.yaml" % other, "d%s.jsonld" % other, out]})
         elif k < 72:
             st = {"op": "run", "argv": ["validate", "p%s.yaml" % which, "d%s.jsonld" % which]}
             if rnd.randrange(100) < 12:
@@ -280,6 +293,9 @@ class Exec:
                     probe("failure_" + cause)
             if viol:
                 return rec, viol
+            if fired and fired[0]["err"] == "CRASH" and st.get("restart") == "dirty":
+                disk.dirty_restart()
+                probe("dirty_restart_after_crash")
         return rec, None
 
 
